@@ -22,8 +22,8 @@ LEVEL = "exploration"
 
 def run(ctx):
     quick = ctx.quick
-    modules = ["numeric", "hierarchy", "shapes", "enums"] if quick else \
-        ["numeric", "containers", "shapes", "strings", "raising", "enums", "hierarchy"]
+    modules = ["numeric", "hierarchy", "shapes", "enums", "excs"] if quick else \
+        ["numeric", "containers", "shapes", "strings", "raising", "enums", "hierarchy", "excs"]
     seeds = [1] if quick else [1, 2]
     algs = ["DYNAMOSA", "MIO", "WHOLE_SUITE"] if quick else \
         ["DYNAMOSA", "MIO", "WHOLE_SUITE", "MOSA", "RANDOM", "RANDOM_TEST_SUITE_SEARCH"]
